@@ -14,7 +14,11 @@ import traceback
 from . import anchors, coqlit, coqrun
 
 VERIF = coqrun.VERIF
-EVIDENCE = os.path.join(VERIF, "evidence")
+# evidence describes /repo itself: a run pointed at another checkout (N0V_REPO: seeded changes, builder
+# worktrees) writes its record next to that checkout's scratch output instead of overwriting the registered one
+_REPO = os.path.realpath(os.environ.get("N0V_REPO", "/repo"))
+EVIDENCE = (os.path.join(VERIF, "evidence") if _REPO == "/repo"
+            else os.environ.get("N0V_EVIDENCE_DIR", os.path.join(VERIF, "evidence-other")))
 REPLAYS = os.path.join(VERIF, "replays")
 CORPUS = os.path.join(VERIF, "corpus")
 FINDINGS = os.path.join(VERIF, "known_findings.json")
